@@ -376,9 +376,11 @@ func updateConfigFile() {
 		}
 		b = append(b, ")\n"...)
 	}
+	verifCrash("config.before-write")
 	if err := os.WriteFile(configFilename, b, 0666); err != nil {
 		panic(err)
 	}
+	verifCrash("config.after-write")
 }
 
 func defReplFunction() {
